@@ -89,18 +89,81 @@ FIXTURE_BASIS = {1: {"centers": [["fx1", [_S(0)]]], "atom_map": ["fx1"], "nbf": 
                  6: {"centers": [["fx6", [_S(2, False)]]], "atom_map": ["fx6"], "nbf": 6}}
 
 
+# a second family: ONE basis name, ONE center key and ONE atom_map for every function count, two shell layouts per count (the same
+# named basis with / without polarisation functions, in its spherical and its cartesian form): whatever identifies a basis set
+# short of its shells is shared. Judged by their own shells like every other basis.
+SHARED_BASIS = {1: [[_S(0)], [_S(0, False)]],
+                2: [[_S(0), _S(0)], [_S(0, False), _S(0)]],
+                3: [[_S(1)], [_S(1, False)]],
+                4: [[_S(0), _S(1)], [_S(0), _S(0), _S(0), _S(0)]],
+                6: [[_S(2, False)], [_S(1), _S(1, False)]]}
+# how the basis of a wavefunction reaches the constructor: "obj" / "dict" = the fixture b<nbf> as a BasisSet object / as plain data
+# (what a deserialised record carries); "s<v>obj" / "s<v>dict" = variant v of the shared-name family, likewise
+BASIS_FORMS = ["obj", "dict", "s0obj", "s0dict", "s1obj", "s1dict"]
+
+
+def basis_form(spec):
+    return spec[2] if len(spec) > 2 else "obj"
+
+
+def basis_plain(spec):
+    """["basis", nbf, form?] -> the keyword data of that basis set (fresh on every call: nothing is shared between cases)"""
+    form = basis_form(spec)
+    if form.startswith("s"):
+        case = {"centers": [["sh", SHARED_BASIS[spec[1]][int(form[1])]]], "atom_map": ["sh"], "nbf": spec[1]}
+        return dict(basis_kwargs(case), name="shared")
+    return dict(basis_kwargs(FIXTURE_BASIS[spec[1]]), name=f"b{spec[1]}")
+
+
+def basis_digest(d):
+    """everything a basis set says (plain data of the constructor, or BasisSet.dict()), canonical and JSON-able"""
+    hv = lambda h: str(getattr(h, "value", h))
+    cd = []
+    for k in sorted(d["center_data"]):
+        c = d["center_data"][k]
+        cd.append([k, [[hv(sh["harmonic_type"]), [int(L) for L in sh["angular_momentum"]], [float(x) for x in sh["exponents"]],
+                        [[float(x) for x in row] for row in sh["coefficients"]]] for sh in c["electron_shells"]]])
+    return [str(d["name"]), [str(a) for a in d["atom_map"]], None if d.get("nbf") is None else int(d["nbf"]), cd]
+
+
+def digest_count(dg):
+    """number of functions implied by the shells of a digest (2L+1 / (L+1)(L+2)/2 over the atom map)"""
+    per = {k: sum((2 * L + 1) if h == "spherical" else (L + 1) * (L + 2) // 2 for h, am, _, _ in shells for L in am) for k, shells in dg[3]}
+    return sum(per.get(a, 0) for a in dg[1])
+
+
 def fixtures():
     if _FIX:
         return _FIX
-    from qcelemental.models import BasisSet, Molecule
+    from qcelemental.models import Molecule
     warnings.filterwarnings("ignore", category=DeprecationWarning)
     mol = Molecule(symbols=["He", "He"], geometry=[0, 0, 0, 0, 0, 3])
-    pool = {}
-    for nbf, case in FIXTURE_BASIS.items():
-        # (the stored count is judged by the basis streams, not here; distinct names and center keys per fixture)
-        pool[nbf] = BasisSet(**dict(basis_kwargs(case), name=f"b{nbf}"))
-    _FIX.update(mol=mol, basis=pool)
+    _FIX.update(mol=mol, basis={})
+    try:
+        for nbf in FIXTURE_BASIS:
+            # (the stored count is judged by the basis streams, not here; distinct names and center keys per fixture)
+            basis_object(["basis", nbf])
+            for v in (0, 1):
+                basis_object(["basis", nbf, f"s{v}obj"])
+    except Exception:
+        _FIX.clear()
+        raise
     return _FIX
+
+
+def basis_object(spec):
+    """the BasisSet object of a spec (built once per (nbf, family, variant) from plain data of its own)"""
+    from qcelemental.models import BasisSet
+    pool = _FIX["basis"]
+    key = (spec[1], basis_form(spec).replace("dict", "obj"))
+    if key not in pool:
+        pool[key] = BasisSet(**basis_plain(spec))
+    return pool[key]
+
+
+# element types / memory layouts an array may arrive in besides a C-ordered float64 ndarray or a nested list
+ARRAY_DTYPES = {"i8": "<i8", "i4": "<i4", "be": ">f8", "f4": "<f4", "bi4": ">i4"}
+ARRAY_FORMS = ["nd", "nd", "nd", "nd", "list", "list", "F", "strided", "i8", "i4", "be", "f4", "bi4"]
 
 
 def ekind(e):
@@ -117,6 +180,16 @@ def to_np(spec):
     a = np.array(data, dtype=float).reshape(shape)
     if form == "list":
         return a.tolist()
+    if form == "F":                       # column-major memory, same logical elements
+        return np.asfortranarray(a)
+    if form == "strided":                 # a non-contiguous view (every other element of the last axis of a wider buffer)
+        big = np.zeros(list(a.shape[:-1]) + [2 * a.shape[-1]]) if a.ndim else np.zeros(())
+        if a.ndim == 0:
+            return a
+        big[..., ::2] = a
+        return big[..., ::2]
+    if form in ARRAY_DTYPES:              # integer-valued elements: every one of these dtypes holds them exactly
+        return a.astype(ARRAY_DTYPES[form])
     return a
 
 
@@ -134,10 +207,11 @@ def wfn_value(spec):
     if t == "bool":
         return spec[1]
     if t == "basis":
-        return fixtures()["basis"][spec[1]]
+        fixtures()
+        return basis_plain(spec) if basis_form(spec).endswith("dict") else basis_object(spec)
     if t == "str":
         return spec[1]
-    return to_np(spec)
+    return hand_over(spec)
 
 
 def canon_wfn(d):
@@ -150,8 +224,9 @@ def canon_wfn(d):
             out[k] = ["bool", v]
         elif isinstance(v, str):
             out[k] = ["str", v]
-        elif isinstance(v, dict):          # the basis
-            out[k] = ["basis", int(v["name"][1:]), v["name"]]     # fixture basis sets are named b<nbf>
+        elif isinstance(v, dict):          # the basis: function count implied by ITS shells, name, everything it says
+            dg = basis_digest(v)
+            out[k] = ["basis", digest_count(dg), v["name"], dg]
         else:
             out[k] = canon_arr(v)
     return out
@@ -189,7 +264,7 @@ def atomic_kwargs(case):
     if case["wfn"] is not None:
         kw["wavefunction"] = {k: wfn_value(v) for k, v in case["wfn"]}
     rr = case["rr"]
-    kw["return_result"] = float(rr[1]) if rr[0] == "float" else to_np(rr)
+    kw["return_result"] = float(rr[1]) if rr[0] == "float" else hand_over(rr)
     if case["stdout"] is not None:
         kw["stdout"] = case["stdout"]
     if case["native"] is not None:
@@ -228,7 +303,7 @@ def run_wfnprops(case):
 
 def run_props(case):
     from qcelemental.models import AtomicResultProperties
-    kw = {k: to_np(v) for k, v in case["fields"]}
+    kw = {k: hand_over(v) for k, v in case["fields"]}
     if case["natom"] is not None:
         kw["calcinfo_natom"] = case["natom"]
     try:
@@ -399,8 +474,9 @@ def oracle_wfn_part(case, out_wfn, restricted_dropped=True):
                     tag = "unvalidated" if k in UNVALIDATED_WFN else None
                     bad.append((f"{k} accepted with shape {v[2]}, implied shape is {want} (nbf={nbf})", tag))
         elif v[0] == "basis":
-            if src[0] != "basis" or v[1] != src[1] or v[2] != f"b{src[1]}":
-                bad.append(("basis changed", None))
+            want = basis_digest(basis_plain(src)) if src[0] == "basis" else None
+            if src[0] != "basis" or v[1] != src[1] or v[3] != want:
+                bad.append((f"basis changed: the result holds {v[3]} (its shells imply nbf={v[1]}), supplied was {want}", None))
         elif v[:2] != src[:2]:
             bad.append((f"value of {k} changed: {src} -> {v}", None))
     for k in PTRS:
@@ -552,7 +628,7 @@ def oracle_atomic(case, out, obj):
         r = revalidate(AtomicResult, obj, canon_atomic)
         if r:
             tag = None
-            if case["native"] is None and pol == "input" and o["native"] == {}:
+            if case["native"] is None and pol == "input" and o["native"] == {} and r.startswith("re-validation changed"):
                 # is the native_files default the only thing that moved?
                 again = canon_atomic(AtomicResult(**obj.dict()))
                 if dict(again, native={}) == o and again["native"] == {"input": None}:
@@ -800,14 +876,15 @@ def gen_array(rng, ident, size_fit, fit_shape, wrong_p=0.12):
         shape = [d, size // d] if size else [0, rng.choice([1, 3])]
     data = [ident * 100 + i for i in range(size)]
     # a nested list cannot carry a shape with a zero extent
-    return ["arr", data, shape, rng.choice(["nd", "nd", "list"]) if size > 0 else "nd"]
+    return ["arr", data, shape, rng.choice(ARRAY_FORMS) if size > 0 else rng.choice(["nd", "nd", "F", "i8", "be"])]
 
 
-def gen_wfn(rng, weird=0.2):
+def gen_wfn(rng, weird=0.2, forms=None):
     nbf = rng.choice([1, 2, 2, 3, 3, 4, 6])
     nmo = rng.randint(1, nbf)
     restricted = rng.random() < 0.5
-    items = [["basis", ["basis", nbf]], ["restricted", ["bool", restricted]]]
+    form = rng.choice(forms or ["obj", "obj", "obj", "dict", "dict"] + BASIS_FORMS[2:])
+    items = [["basis", ["basis", nbf] if form == "obj" else ["basis", nbf, form]], ["restricted", ["bool", restricted]]]
     present = []
     dens = rng.choice([0.15, 0.4, 0.8])
     for ident, name in enumerate(WFN_ARRAYS, 1):
@@ -1037,12 +1114,90 @@ def gen_cases(ctx):
 
 # ---------------------------------------------------------------------------------------------------------
 
-def judge(stream, case):
+def supplied_specs(stream, case):
+    """[(where, spec)] of every array the case hands to the constructor"""
+    if stream == "atomic":
+        return ([("return_result", case["rr"])] if case["rr"][0] == "arr" else []) + \
+               [(k, v) for k, v in (case["wfn"] or []) if v[0] == "arr"]
+    if stream == "wfnprops":
+        return [(k, v) for k, v in case["wfn"] if v[0] == "arr"]
+    if stream == "props":
+        return [(k, v) for k, v in case["fields"]]
+    return []
+
+
+_SUPPLIED = []
+
+
+def hand_over(spec):
+    """to_np, remembering the object handed to the implementation (what it holds afterwards is judged by `supplied_intact`)"""
+    v = to_np(spec)
+    _SUPPLIED.append((spec, v))
+    return v
+
+
+def supplied_intact():
+    """the caller's arrays / lists still hold the elements they were given with (their shape attribute is not judged: validation
+    is documented to shape arrays, and does so in place for an ndarray that is already float64)"""
+    bad = []
+    for spec, v in _SUPPLIED:
+        try:
+            now = [float(x) for x in np.asarray(v).reshape(-1).tolist()]
+        except Exception as e:
+            now = f"{type(e).__name__}"
+        if now != [float(x) for x in np.array(spec[1]).reshape(-1).tolist()]:
+            bad.append((f"the caller's own {spec[3]} array {spec[1][:6]}.. was modified by the constructor: it now holds {str(now)[:80]}", None))
+    return bad
+
+
+def snapshot(stream, obj):
+    """what an accepted object says, for 'later calls do not change earlier results'"""
+    if stream in ("atomic", "layout"):
+        return canon_atomic(obj) if stream == "atomic" else obj.return_result.reshape(-1).tolist()
+    if stream == "wfnprops":
+        return canon_wfn(obj.dict())
+    if stream == "props":
+        return sorted((k, canon_arr(v) if isinstance(v, np.ndarray) else v) for k, v in obj.dict().items())
+    if stream == "traj":
+        return [canon_atomic(t) for t in obj.trajectory]
+    return basis_digest(obj.dict())
+
+
+class Watch:
+    """accepted objects of earlier steps and what they said when they were built"""
+
+    def __init__(self, keep=6):
+        self.keep, self.items = keep, []
+
+    def add(self, stream, obj):
+        if obj is not None:
+            self.items = (self.items + [(stream, obj, snapshot(stream, obj))])[-self.keep:]
+
+    def changed(self):
+        bad = []
+        for k, (stream, obj, snap) in enumerate(self.items[:-1]):
+            try:
+                now = snapshot(stream, obj)
+            except Exception as e:
+                now = f"{type(e).__name__}: {e}"
+            if now != snap:
+                bad.append((f"the {stream} result built {len(self.items) - 1 - k} call(s) earlier changed when this one was built: "
+                            f"{str(snap)[:300]} -> {str(now)[:300]}", None))
+        return bad
+
+
+def judge(stream, case, watch=None):
     if stream == "history":
         bad = run_history(case)
         return ["History", len(case)], [(w, None) for w in bad]
+    del _SUPPLIED[:]
     out, obj = RUN[stream](case)
     bad = ORACLE[stream](case, out, obj)
+    bad = bad + supplied_intact()
+    del _SUPPLIED[:]
+    if watch is not None:
+        watch.add(stream, obj)
+        bad = bad + watch.changed()
     return out, bad
 
 
@@ -1052,9 +1207,21 @@ def judge(stream, case):
 def gen_history(rng, n):
     steps = []
     while len(steps) < n:
-        fam = rng.choice(["atomic", "atomic", "wfnprops", "props", "basis", "traj"])
+        fam = rng.choice(["atomic", "atomic", "wfnprops", "props", "basis", "traj", "samebasis"])
         run = rng.randint(2, 4)
-        if fam == "atomic":
+        if fam == "samebasis":
+            # results whose basis sets share name, center key and atom_map and differ in the shells (hence in nbf or only in the
+            # layout), supplied as plain data or as objects, directly or inside an AtomicResult under a retaining protocol
+            for _ in range(run):
+                w = gen_wfn(rng, weird=0.0, forms=["s0dict", "s1dict", "s0dict", "s1dict", "s0obj", "s1obj"])
+                if rng.random() < 0.5:
+                    steps.append({"stream": "wfnprops", "case": {"wfn": w}})
+                else:
+                    c = gen_atomic(rng, rng.randrange(6 * 3 * 4 * 4), weird=0.0)
+                    c["pw"] = rng.choice(["all", "all", "orbitals_and_eigenvalues", "return_results"])
+                    c["wfn"] = w
+                    steps.append({"stream": "atomic", "case": c})
+        elif fam == "atomic":
             k = rng.randrange(6 * 3 * 4 * 4)
             for _ in range(run):                       # same protocols and driver, different payloads / restricted flag / sizes
                 c = gen_atomic(rng, k, weird=0.0)
@@ -1093,9 +1260,9 @@ def gen_history(rng, n):
 def run_history(steps):
     """run the steps in order; the oracle's complaints (outside the known findings) about the LAST one"""
     warnings.filterwarnings("ignore", category=DeprecationWarning)
-    bad = []
+    bad, watch = [], Watch(keep=len(steps))
     for st in steps:
-        out, bad = judge(st["stream"], st["case"])
+        out, bad = judge(st["stream"], st["case"], watch)
     return [f"{w} [observed {out}]" for w, t in bad if t is None]
 
 
@@ -1104,6 +1271,12 @@ def smaller(stream, case):
     import copy
     out = []
     if stream in ("atomic", "wfnprops") and case.get("wfn"):
+        core = [it for it in case["wfn"] if it[0] in ("basis", "restricted")]
+        if len(core) < len(case["wfn"]):               # the big jumps first
+            c = dict(copy.deepcopy(case), wfn=copy.deepcopy(core))
+            if stream == "atomic":
+                out.append(dict(c, rr=["float", 0], driver="energy", native=None, stdout=None, pstdout=None, pnative=None))
+            out.append(c)
         for i in range(len(case["wfn"])):
             if case["wfn"][i][0] not in ("basis", "restricted"):
                 c = copy.deepcopy(case)
@@ -1174,6 +1347,33 @@ def shrink_failure(f, budget=400):
     return dict(f, case={"stream": stream, "input": best}, observed=best_out, what=best_what, shrunk=(best != case))
 
 
+def shrink_history(hist, budget=45):
+    """fewer steps, then smaller steps, as long as the last step still fails when the history runs in a FRESH interpreter"""
+    from .. import histseq
+    fails = lambda h: bool(histseq.fresh_run("c20", h, timeout=120))
+    i = 0
+    while i < len(hist) - 1 and budget > 0 and len(hist) <= 10:
+        cand = hist[:i] + hist[i + 1:]
+        budget -= 1
+        if fails(cand):
+            hist = cand
+        else:
+            i += 1
+    for j in range(len(hist) - 1, -1, -1):
+        progress = True
+        while progress and budget > 0:
+            progress = False
+            for c in smaller(hist[j]["stream"], hist[j]["case"]):
+                if budget <= 0:
+                    break
+                budget -= 1
+                cand = hist[:j] + [{"stream": hist[j]["stream"], "case": c}] + hist[j + 1:]
+                if fails(cand):
+                    hist, progress = cand, True
+                    break
+    return hist
+
+
 def history_failures(rng, n, corr=None):
     """run a history stream in this interpreter; every failing step (at most 3) becomes a failure whose case is the shortest
     history that reproduces it in a fresh interpreter"""
@@ -1183,16 +1383,18 @@ def history_failures(rng, n, corr=None):
     except Exception:
         # a fixture basis set was refused: report it as what it is, a failing case of the basis stream
         out_f = []
-        for case in FIXTURE_BASIS.values():
+        shared = [{"centers": [["sh", sh]], "atom_map": ["sh"], "nbf": nbf} for nbf, vs in SHARED_BASIS.items() for sh in vs]
+        for case in list(FIXTURE_BASIS.values()) + shared:
             out, bad = judge("basis", case)
             out_f.extend({"stream": "oracle-basis", "case": {"stream": "basis", "input": case}, "what": w, "observed": out, "tag": t}
                          for w, t in bad)
         return out_f
     hsteps = gen_history(rng, n)
     out_f = []
+    watch = Watch()
     for j, st in enumerate(hsteps):
         try:
-            out, bad = judge(st["stream"], st["case"])
+            out, bad = judge(st["stream"], st["case"], watch)
         except Exception as e:
             if corr is not None:
                 corr.errors.append(f"harness error on history step {st}: {type(e).__name__}: {e}")
@@ -1203,7 +1405,15 @@ def history_failures(rng, n, corr=None):
         bad = [(w, t) for w, t in bad if t is None]
         if bad and len(out_f) < 3:
             hist, complaints, reproduced = histseq.minimal_history("c20", hsteps[:j + 1])
-            what = (f"after {len(hist) - 1} earlier call(s) in the same interpreter: " if len(hist) > 1 else "") + bad[0][0]
+            if reproduced and not out_f:
+                try:
+                    hist = shrink_history(hist)
+                    complaints = histseq.fresh_run("c20", hist) or complaints
+                except Exception as e:
+                    if corr is not None:
+                        corr.notes.append(f"shrinking a history failed: {type(e).__name__}: {e}")
+            first = complaints[0] if reproduced and complaints else bad[0][0]
+            what = (f"after {len(hist) - 1} earlier call(s) in the same interpreter: " if len(hist) > 1 else "") + first
             if not reproduced and corr is not None:
                 corr.notes.append("a history-stream failure did not reproduce in a fresh interpreter with the whole history")
             out_f.append({"stream": "oracle-history", "case": {"stream": "history", "input": hist}, "what": what,
